@@ -142,6 +142,10 @@ def run(ctx):
                            and isinstance(s.value, ast.Constant) and s.value.value is None for s in walk_no_nested(init.node))
             ok = calls_base or sets_con
             ctx.ob('C36-SUB.subclass-initialises-connection-slot', init, init.node, ok, '' if ok else '%s.__init__ neither calls Pool.__init__ nor sets con = None' % cls.name)
+            sets_pid = any(dotted(t) == init.recv + '.pid' and isinstance(v, ast.Constant) and v.value is None for s in walk_no_nested(init.node) for t, v in assign_pairs(s))
+            ok = calls_base or sets_pid
+            ctx.ob('C36-SUB.subclass-initialises-owner-slot', init, init.node, ok, '' if ok else '%s.__init__ neither calls Pool.__init__ nor sets pid = None: after a _connect() that '
+                   'failed half-way (connection assigned, pragma refused) the pid comparison in connect() / disconnect() reads an attribute that was never set' % cls.name)
         cn = cls.methods.get('connect')
         if cn is not None:
             ok = any('getpid' in norm(x) for x in walk_no_nested(cn.node) if isinstance(x, ast.Call))
@@ -180,6 +184,46 @@ def run(ctx):
                '' if ok else 'for a file database the name handed to SQLitePool can be the name as given (relative): every new connection resolves it against the current '
                'working directory, so a forked child that changed directory works on a different file than its parent', node=pn.ast)
 
+    # ---------------------------------------------------------------- PARK at disconnect
+    # Database.disconnect() in a child ("disconnect after fork") reaches Pool.disconnect with the inherited handle still in the pool: closing it
+    # is a message on the parent's socket (COM_QUIT / Terminate).  Scenario "the pool holds a foreign connection": no close() is reachable, the
+    # handle is parked; scenario "own connection": it is closed.
+    from ..typestate import scenario_edges as _se
+    ndis = 0
+    for cls in [P] + list(repo.subclasses(P, strict=True)):
+        dm = cls.methods.get('disconnect')
+        if dm is None: continue
+        gd = cg.cfg(dm)
+        closes = nodes_calling(gd, lambda c: isinstance(c.func, ast.Attribute) and c.func.attr == 'close')
+        if not closes: continue                      # delegates to Pool.disconnect or keeps the connection (in-memory SQLite, Oracle session pool)
+        ndis += 1
+        lpids = {dotted(s_.targets[0]) for s_ in walk_no_nested(dm.node) if isinstance(s_, ast.Assign) and len(s_.targets) == 1 and norm(s_.value) == 'os.getpid()'}
+        def mk(foreign):
+            def atom(text, node):
+                if isinstance(node, ast.Compare) and len(node.ops) == 1:
+                    l, r_ = node.left, node.comparators[0]
+                    def is_cur(e): return norm(e) == 'os.getpid()' or dotted(e) in lpids
+                    def is_own(e): return (dotted(e) or '').endswith('.pid')
+                    if (is_cur(l) and is_own(r_)) or (is_cur(r_) and is_own(l)):
+                        if isinstance(node.ops[0], (ast.NotEq, ast.IsNot)): return foreign
+                        if isinstance(node.ops[0], (ast.Eq, ast.Is)): return not foreign
+                    if isinstance(r_, ast.Constant) and r_.value is None and ((dotted(l) or '').endswith('.con') or isinstance(l, ast.Name)):
+                        if text.endswith(' is None'): return False                # a connection is held (eval_test asks for the `is None` reading)
+                        if text.endswith(' is not None'): return True
+                return None
+            return atom
+        eo_f, eo_o = _se(gd, dm.node, mk(True)), _se(gd, dm.node, mk(False))
+        rf, ro = gd.reach([gd.entry], edge_ok=eo_f), gd.reach([gd.entry], edge_ok=eo_o)
+        parks = nodes_calling(gd, lambda c: 'forked_connections.append' in norm(c.func))
+        bad = [n_ for n_ in closes if n_.id in rf]
+        ctx.ob('C36-PARK.disconnect-does-not-close-an-inherited-connection', dm, (bad[0].ast if bad else dm.node), not bad,
+               '' if not bad else 'disconnect() closes the pooled connection also when the pool\'s pid differs from os.getpid(): a child that disconnects after the fork '
+               'ends the parent\'s server session', node=bad[0].ast if bad else None)
+        okp = any(n_.id in rf for n_ in parks)
+        ctx.ob('C36-PARK.disconnect-parks-an-inherited-connection', dm, dm.node, okp, '' if okp else 'an inherited connection is dropped by disconnect() without being kept in forked_connections (its finaliser closes the parent\'s socket)')
+        okc = any(n_.id in ro for n_ in closes) and not any(n_.id in ro for n_ in parks)
+        ctx.ob('C36-PARK.disconnect-closes-the-process-own-connection', dm, dm.node, okc, '' if okc else 'disconnect() does not close (or parks) a connection this process opened')
+    ctx.floor('C36-PARK', ndis, 1, 'disconnect() methods that close a connection')
     # ---------------------------------------------------------------- SESSION
     # a session that is open when the process forks exists in both processes and holds the connection handle itself (cache.connection): the
     # pool's pid comparison is never consulted for it.  Necessary condition for "the child never issues statements on the parent's connection"
@@ -212,6 +256,12 @@ MUTANTS = [
     dict(id='C36-m2', file='pony/orm/dbapiprovider.py', fn='Pool.connect', old='            pool._connect()\n            pool.pid = pid', new='            pool.pid = pid\n            pool._connect()', benign=True),
     dict(id='C36-m3', file='pony/orm/dbapiprovider.py', fn='Pool.connect', old='            pool.forked_connections.append((pool.con, pool.pid))\n            pool.con = pool.pid = None', new='            pool.con.close()\n            pool.con = pool.pid = None', expect='C36-PARK'),
     dict(id='C36-m4', file='pony/orm/dbapiprovider.py', fn='Pool.connect', old='            pool.forked_connections.append((pool.con, pool.pid))\n', new='', expect='C36-PARK.inherited-connection-is-parked'),
-    dict(id='C36-m5', file='pony/orm/dbproviders/sqlite.py', fn='SQLitePool.__init__', old='        pool.con = None\n', new='', expect='C36-SUB'),
+    dict(id='C36-m5', file='pony/orm/dbproviders/sqlite.py', fn='SQLitePool.__init__', old='        pool.con = pool.pid = None\n', new='        pool.pid = None\n', expect='C36-SUB.subclass-initialises-connection-slot'),
+    dict(id='C36-dis1', file='pony/orm/dbapiprovider.py', fn='Pool.disconnect', old="        if con is None: pass\n        elif pool.pid != os.getpid():  # inherited from the parent process: closing it would end the parent's session\n            pool.forked_connections.append((con, pool.pid))\n            pool.pid = None\n        else: con.close()",
+         new="        if con is not None: con.close()", expect='C36-PARK.disconnect-does-not-close'),
+    dict(id='C36-dis2', file='pony/orm/dbapiprovider.py', fn='Pool.disconnect', old="        elif pool.pid != os.getpid():", new="        elif pool.pid == os.getpid():", expect='C36-PARK.disconnect'),
+    dict(id='C36-dis3', file='pony/orm/dbapiprovider.py', fn='Pool.disconnect', old="            pool.forked_connections.append((con, pool.pid))\n            pool.pid = None\n        else: con.close()", new="            pool.pid = None\n        else: con.close()", expect='C36-PARK.disconnect-parks'),
+    dict(id='C36-dis4', file='pony/orm/dbapiprovider.py', fn='Pool.disconnect', old="        if con is None: pass\n        elif pool.pid != os.getpid():", new="        mine = pool.pid == os.getpid()\n        if con is None: return\n        if not mine:", benign=True),
+    dict(id='C36-pid0', file='pony/orm/dbproviders/sqlite.py', fn='SQLitePool.__init__', old='        pool.con = pool.pid = None\n', new='        pool.con = None\n', expect='C36-SUB.subclass-initialises-owner-slot'),
     dict(id='C36-m6', file='pony/orm/dbapiprovider.py', fn='Pool.connect', old='        if pool.con is not None and pool.pid != pid:', new='        if pool.con is not None and pool.pid == pid:', expect='C36-'),
 ]
